@@ -373,7 +373,8 @@ Proof.
     apply ok_set_parent; auto.
     assert (Hin : In c (filter (fun k => str_eqb (name s k) nm) (kids s p))) by (rewrite E; now left).
     apply filter_In in Hin. eapply closed_kids; [exact Hc | exact Ho | apply Hin].
-  - cbn [fst]. apply ok_set_kids; auto. intros k Hk. apply In_py_sort in Hk. eapply closed_kids; eauto.
+  - destruct (sort_raises keys (kids s p)); cbn [fst]; [now apply ok_refl|].
+    apply ok_set_kids; auto. intros k Hk. apply In_py_sort in Hk. eapply closed_kids; eauto.
   - destruct (negb (is_node cfg)); cbn [fst]; [now apply ok_refl|].
     apply ok_set_sep; auto. unfold root. now apply root_of_closed.
 Qed.
